@@ -324,6 +324,8 @@ const ZONED_FORMATS: &[&str] = &[
     "%Y%m%d%H%M%S%z",
     "%C%y-%m-%d %l:%M:%S %P %z",
     "%F%n%T%t%z",
+    // two-digit ISO week-based year (documented pivot: 69..=99 -> 19xx, 00..=68 -> 20xx)
+    "%g-W%V-%u %T%.f %z",
     // week-number based dates (week 0..53 of the year, Sunday resp. Monday based)
     "%Y %U %w %T%.f %z",
     "%Y %W %u %T%.f %z",
@@ -351,7 +353,9 @@ fn test_roundtrip(c: &RtCase, cx: &mut Cx) -> CaseResult {
     let named = f.z.label.starts_with("file:");
     cx.nt_if(f.off % 60 != 0 || f.y < 1000 || c.perturb.is_some() || f.ns != 0);
     cx.class_if(f.off % 60 != 0, "offset-with-seconds");
-    if !(uses_two_digit && !(1969..=2068).contains(&f.y)) && !(zf.starts_with("%C") && f.y < 0) {
+    let iso_year = rc::iso_week(rc::to_days(f.y, f.m, f.d)).0;
+    let two_digit_iso_out_of_range = zf.contains("%g") && !(1969..=2068).contains(&iso_year);
+    if !(uses_two_digit && !(1969..=2068).contains(&f.y)) && !two_digit_iso_out_of_range && !(zf.starts_with("%C") && f.y < 0) {
         let text = strtime::format(zf, &f.zdt).map_err(|e| Failure::new("format-err", format!("strftime({zf:?}, {}) = Err({e})", f.zdt)))?;
         let ctx = format!("[{}] {zf:?} -> {text:?}", f.z.label);
         let has_frac = zf.contains("f");
